@@ -11,6 +11,10 @@ CONSTANTS
   CwdVia = {"real", "link"}
   OcNames = {"rel"}
   CwdSource = "getcwd"
+  EpochEnvs = {"unset", "0", "normal"}
+  ZeroMeansUnset = FALSE
+  PrevFiles = {"none", "longer"}
+  Truncates = TRUE
   TieBreak = "none"
 INVARIANT OutputPure
 CHECK_DEADLOCK FALSE
